@@ -25,6 +25,9 @@ BANNER = re.compile(r"-+\nEnd of Run after [0-9.eE+-]+ Seconds\.\n-+\n")
 # the not-found messages of RATE_PK / RATE_SVD / RATE_HERMANSKA / MEANG print the name from a buffer that has already been
 # freed (PBasic.cpp: PHRQ_free(min_name) precedes "oss << min_name"): the text after "for " is heap garbage
 FREED = re.compile(r"((?:PK|SVD|Hermanska) rate parameters not found for |No definition in MEAN_GAMMAS found for )[^\n]*")
+# transport.cpp keeps the "moles added to balance negative concentrations" counter in file-scope storage shared by all
+# instances of the process (known finding F2, C06): the reported amount depends on what ran earlier in the process
+MCD_ADDED = re.compile(r"(\t )[0-9.eE+-]+( moles \S+\.\n)")
 DEFNAME = re.compile(r"^(phreeqc|dump|selected_\d+)\.\d+\.(out|err|log)$")
 
 
@@ -35,6 +38,8 @@ def mask_text(s):
         s = BANNER.sub("<end-of-run banner>\n", s)
     if " found for " in s:
         s = FREED.sub(r"\1<name>", s)
+    if "added in total to the system" in s:
+        s = MCD_ADDED.sub(r"\1<amount>\2", s)
     return s
 
 
@@ -84,8 +89,8 @@ def group_of_getter(g):
 OBS_FLAGS = "gscuat"     # getters (incl. line counts), strings, components, per-user info, accumulated lines, tables
 
 
-def observe(d, rcs):
-    return canon(d.obs("s0", "c", OBS_FLAGS), d.files(), rcs)
+def observe(d, rcs, flags=OBS_FLAGS):
+    return canon(d.obs("s0", "c", flags), d.files(), rcs)
 
 
 def canon(o, files, rcs):
@@ -271,9 +276,10 @@ def reference(variant, load, sv):
         _ref[key] = run_probes(d, variant)
         b = _ref[key]
         # vacuity guards: the probes really produce the observables the comparison relies on
-        if load != "none":
-            assert len(b["spec"]["GetOutputString"][1]) > 2000, "probe spec: no output string"
-            assert len(b["spec"]["selected output 1: table"][1]) >= 2, "probe spec: no selected-output table"
+        assert len(b["spec"]["GetOutputString"][1]) > 2000, "probe spec: no output string"
+        assert len(b["spec"]["selected output 1: table"][1]) >= 2, "probe spec: no selected-output table"
+        assert len(b["trans7"]["selected output 1: table"][1]) >= 10, "probe trans7: no selected-output table"
+        if variant == "rel":
             assert len(b["dump"]["GetDumpString"][1]) > 200, "probe dump: no dump string"
             assert len(b["log"]["GetLogString"][1]) > 20, "probe log: no log string"
             assert b["so"]["users"][1] == [1, 2], "probe so: user numbers"
@@ -328,7 +334,11 @@ def post_load(variant, ops, fail, load):
         phase = "observation before the load"
         d.fork()                  # (a driver death inside the fork restarts the driver: no endfork then)
         sv = survivors(d)
-        pre = core.sha(json.dumps([observe(d, []), sv], sort_keys=True))
+        # (sanitizer build: no observation before the load - after a failed definition the getters trip debug assertions)
+        if variant == "rel":
+            pre = core.sha(json.dumps([observe(d, []), sv], sort_keys=True))
+        else:
+            pre = core.sha(json.dumps([ops, fail, sv], sort_keys=True))
         d.endfork()
         phase = "load"
         d.cmd("rmfiles")          # whatever exists after the load was written by the load
@@ -535,10 +545,10 @@ def bounds(tier):
     return [
         ("depth<=1: (op)? (failing op)? x 3 loads", mk(d01, fails, loads)),
         ("depth 2: op op x 3 loads", mk(histories(S_ALL, 2), [None], loads)),
+        ("sanitizer build, depth<=1: (op)? (failing op)? x 3 loads", mk(d01, fails, loads, "san")),
         ("depth 2 + failing op: op op (failing op) x LoadDatabase(phreeqc.dat)", mk(histories(S_ALL, 2), F_ALL, ["phreeqc"])),
         ("depth 3 over the %d residue-heavy ops: op op op (f_basic | f_trans)? x LoadDatabase(phreeqc.dat | pitzer.dat)" % len(HEAVY),
          mk(histories(HEAVY, 3), [None, "f_basic", "f_trans"], ["phreeqc", "pitzer"])),
-        ("sanitizer build, depth<=1: (op)? (failing op)? x 3 loads", mk(d01, fails, loads, "san")),
         ("sanitizer build, depth 2 over the residue-heavy ops, (failing op)?, LoadDatabase(phreeqc.dat)", mk(histories(HEAVY, 2), fails, ["phreeqc"], "san")),
     ]
 
@@ -551,6 +561,7 @@ def run(tier):
         "default file names contain the instance id: masked as NAME.ID.ext (names only, never contents); the 'End of Run after x Seconds' banner and its dash rows are masked",
         "probes run in %d chains; every chain starts on its own forked copy of the untouched post-load instance, so the first probe of a chain is the first call after the load; files are removed before each probe" % len(A.CHAINS),
         "histories start on phreeqc.dat; an op that is meant to succeed but fails before the end of a history puts the history outside the stated form (counted as out_of_scope, differences only reported as diagnostics)",
+        "masked as well: the amount in the multicomponent-diffusion warning 'added in total to the system' (a process-global counter of transport.cpp, known finding F2) and the name printed by the not-found messages of RATE_PK/RATE_SVD/RATE_HERMANSKA/MEANG (printed from an already freed buffer)",
         "line accessors are not compared (they are a function of the strings: C09); line counts are",
         "no constant was taken from the implementation: the oracle is purely differential",
     ]
